@@ -1017,11 +1017,11 @@ func (f *Frame) runDefers(st *State) {
 type loopMods struct {
 	nonFresh bool // some write may hit memory not allocated by this function call
 	escape   bool // ... and may store a pointer there
-	all   bool
-	keys  map[string]string // comp key -> sort
-	fresh map[string]string // keys touched only by stores into memory allocated inside the loop
-	alloc bool
-	tok   bool
+	all      bool
+	keys     map[string]string // comp key -> sort
+	fresh    map[string]string // keys touched only by stores into memory allocated inside the loop
+	alloc    bool
+	tok      bool
 }
 
 func (lm *loopMods) addType(t types.Type, fresh bool) {
@@ -1191,6 +1191,7 @@ func (f *Frame) loopHeader(li *LoopInfo, st *State, phiEntry map[*ssa.Phi]Val) {
 			}
 		}
 	}
+	st.called = map[string]Term{} // per-iteration: calls made before the loop head do not count
 	for p := range phiEntry {
 		invariant := true
 		for i := range li.Header.Preds {
@@ -1257,6 +1258,11 @@ func (f *Frame) invariants(li *LoopInfo) []*Clause {
 }
 
 func (f *Frame) loopEval(li *LoopInfo, st *State, phiVal func(p *ssa.Phi) Val) *Eval {
+	return f.loopEvalAt(li, li.Header, false, st, phiVal)
+}
+
+// loopEvalAt: variables are resolved at the entry of block b (atEnd: at its end, for back-edge assertions).
+func (f *Frame) loopEvalAt(li *LoopInfo, b *ssa.BasicBlock, atEnd bool, st *State, phiVal func(p *ssa.Phi) Val) *Eval {
 	pos := li.minPos
 	// use a position inside the loop body for scope resolution: the latest position of header instrs
 	for _, in := range li.Header.Instrs {
@@ -1264,11 +1270,79 @@ func (f *Frame) loopEval(li *LoopInfo, st *State, phiVal func(p *ssa.Phi) Val) *
 			pos = p
 		}
 	}
+	if atEnd {
+		// back-edge assertions see the variables of the loop body: resolve names at the end of the body
+		for blk := range li.Body {
+			for _, in := range blk.Instrs {
+				if _, isPhi := in.(*ssa.Phi); isPhi {
+					continue
+				}
+				if p := in.Pos(); p.IsValid() && p > pos {
+					pos = p
+				}
+			}
+		}
+	}
 	ev := &Eval{g: f.g, st: st, old: f.entry, fn: f.fn, pos: pos, vars: map[string]Val{}, pkg: pkgOf(f.fn)}
 	ev.lookup = func(name string) (Val, bool) {
+		if atEnd {
+			if v, ok := f.varAtEnd(b, li.Header, name, pos, st, phiVal); ok {
+				return v, true
+			}
+		}
 		return f.varAt(li.Header, name, pos, st, phiVal)
 	}
 	return ev
+}
+
+// varAtEnd: value of a source variable at the end of block b (a back-edge source inside the loop).
+func (f *Frame) varAtEnd(b, header *ssa.BasicBlock, name string, pos token.Pos, st *State, phiVal func(p *ssa.Phi) Val) (Val, bool) {
+	obj := f.g.ctx.scopeLookup(f.fn, pos, name)
+	if obj == nil {
+		// the variable may be declared inside the loop body: search all objects with that name
+		for o := range f.debugVals {
+			if o.Name() == name {
+				obj = o
+			}
+		}
+	}
+	cands := map[ssa.Value]bool{}
+	for o, vs := range f.debugVals {
+		if o == obj || (obj == nil && o.Name() == name) {
+			for _, v := range vs {
+				cands[v] = true
+			}
+		}
+	}
+	for blk := b; blk != nil && blk != header.Idom(); blk = blk.Idom() {
+		for i := len(blk.Instrs) - 1; i >= 0; i-- {
+			v, ok := blk.Instrs[i].(ssa.Value)
+			if !ok {
+				continue
+			}
+			match := cands[v]
+			if p, ok := v.(*ssa.Phi); ok && !match && p.Comment == name {
+				match = true
+			}
+			if !match {
+				continue
+			}
+			if p, ok := v.(*ssa.Phi); ok && blk == header {
+				if phiVal != nil {
+					return phiVal(p), true
+				}
+			}
+			if a, ok := v.(*ssa.Alloc); ok {
+				av := f.val(a, a.Type())
+				return f.g.loadVal(st, av.Comps[0], a.Type().(*types.Pointer).Elem()), true
+			}
+			return f.val(v, v.Type()), true
+		}
+		if blk == header {
+			break
+		}
+	}
+	return Val{}, false
 }
 
 // varAt finds the value of a source variable at the entry of block b.
@@ -1378,6 +1452,21 @@ func (f *Frame) backEdge(li *LoopInfo, predIdx int, st *State) {
 	g := f.g
 	phiVal := func(p *ssa.Phi) Val { return f.val(p.Edges[predIdx], p.Type()) }
 	f.checkInvariants(li, st, phiVal, "inv-keep")
+	if f.contract != nil {
+		for _, c := range f.contract.LoopStep[li.Ordinal] {
+			ev := f.loopEvalAt(li, li.Header.Preds[predIdx], true, st, phiVal)
+			if hs := f.headerSt[li.Header]; hs != nil {
+				hev := f.loopEval(li, hs, nil)
+				ev.header = hev
+			}
+			t, err := ev.evalBool(c.Expr)
+			if err != nil {
+				g.specError(f.contract, c, err)
+				continue
+			}
+			g.oblige(st, "step", token.NoPos, fmt.Sprintf("loop %d: %s", li.Ordinal, c.Text), t)
+		}
+	}
 	if f.contract != nil {
 		if d := f.contract.LoopDec[li.Ordinal]; d != nil {
 			if hd, ok := f.headerDec[li.Header]; ok {
